@@ -346,6 +346,14 @@ def run(ctx):
     WANT = {"tests": 1, "flags tested": "flags", "set: error": ["Unimplemented"], "set: payload": ["o"], "set: calls op_unknown": False,
             "clear: op_unknown args": [["allocator", "o", "args", "max_cost", "flags"]], "clear: other calls": []}
     r_shape = unknown_shape(rop, {2: "allocator", 3: "o", 4: "args", 5: "max_cost", "self.flags": "flags"})
+    if r_shape.get("tests") == 0:
+        # second idiom: the unknown path is delegated to ChiaDialect's own unknown_operator (whose shape is the next obligation):
+        # unknown_operator(allocator, o, args, self.flags, max_cost) with the result returned
+        dl = rop.calls_to(UNK)
+        roles = {2: "allocator", 3: "o", 4: "args", 5: "max_cost", "self.flags": "flags"}
+        if len(dl) == 1 and [roles.get(param_of(rop, rop.expr_op(a)), "?") for a in dl[0][1]["args"]] == ["allocator", "o", "args", "flags", "max_cost"] \
+                and dl[0][1]["dst"]["l"] == 0 and not any((t.get("callee") or "").endswith("op_unknown") for _, t in rop.calls()):
+            r_shape = dict(WANT)
     ck.ob("R30c", RD + "op|unknown path", r_shape == WANT,
           "NO_UNKNOWN_OPS set: Err(Unimplemented(o)); clear: op_unknown(allocator, o, argument_list, max_cost, self.flags), nothing else",
           site=rop.where(0), detail=r_shape)
